@@ -2,7 +2,7 @@
 """Runs every check against every kept seeded change (and the four reverted fixes) on scratch copies of /repo
 (ATSA_REPO), records which checks report a violation. Output: seeded/MATRIX.md, seeded/<id>/meta.json.detected_by."""
 import os, sys, json, subprocess, shutil, glob, concurrent.futures, re
-V = '/verif'
+V = os.path.dirname(os.path.dirname(os.path.abspath(__file__)))
 props = ['C%02d' % i for i in range(1, 18)]
 items = []
 MODE = 'seeded'
